@@ -3,9 +3,11 @@ import num_common as N
 
 LEVEL = "proof"
 TRUSTED_BASE = [
-    "Coq 8.16.1 kernel incl. vm_compute (used for the Example witnesses only); theorems closed under the global context",
+    "Coq 8.16.1 kernel incl. vm_compute (used for the Example / _refuted witnesses only); the integer, bool and policy theorems are closed under the global context",
+    "axioms under the floating-point theorems only (brought in by Coq's Reals and Flocq, named by Print Assumptions): ClassicalDedekindReals.sig_forall_dec, ClassicalDedekindReals.sig_not_dec, FunctionalExtensionality.functional_extensionality_dep, Classical_Prop.classic",
     "hand-written model coq/NumModel.v (conv, cast/wrap, usual arithmetic conversions, convert_by_policy) tied to /repo by correspondence: exhaustive over all 8- and 16-bit source values x 10 integer targets (hashed sweeps), boundary + random 32/64-bit values, every case also through Detail::ConvertByPolicy with the 2x2 policy combinations",
-    "floating-point half (int -> float/double, double -> float, float -> double, float -> integer): NOT modelled in Coq; decided by correspondence against an exact oracle written with python integers / fractions (props/num_common.py: rne_int, rne_fraction, oracle_conv)",
+    "floating-point half (int -> float/double, double -> float, float -> double, float -> integer): modelled over Flocq's IEEE754.Binary (coq/NumFloatModel.v), proved in coq/NumFloatProofs.v, statements T_C04_int_to_f32_* / T_C04_int_to_f64_* / T_C04_f64_to_f32_* / T_C04_f32_to_f64 in coq/Properties_C04.v; the extracted Flocq model is compared with the implementation on boundary + random bit patterns, and every disagreement is judged by an independent exact oracle written with python integers / fractions (props/num_common.py: rne_int, rne_fraction, oracle_conv)",
+    "Flocq 4 (IEEE754.Binary, binary_normalize, Btrunc, Bcompare) as the meaning of IEEE binary32/binary64 arithmetic; x86-64 SSE conversions are assumed to implement round-to-nearest-even (default rounding mode)",
     "extraction (ExtrOcamlBasic only) and the driver glue ml/num_driver.ml, ml/glue_num.ml, harness/drv_num.cpp, props/num_common.py",
     "GCC's implementation-defined integer narrowing = value modulo 2^N (documented; C++20 makes it the rule); LP64, char signed",
 ]
@@ -71,7 +73,7 @@ def gen_cases(rng, tier):
         classes[cls] = classes.get(cls, 0) + 1
 
     bvals = boundary_ints()
-    nrand = 3000 if tier == "quick" else 60000
+    nrand = 15000 if tier == "quick" else 400000
     # integer sources of 32/64 bits: boundary neighbourhoods x every target (12), conv and policy
     for S in ("i32", "u32", "i64", "u64"):
         lo, hi = N.RANGE[S]
@@ -108,7 +110,7 @@ def gen_cases(rng, tier):
                         add("policy limits", "policy %s %s %s %s %s %s" % (S, T, N.hx(v), old, ovf, mism))
     for S in ("char", "i8", "u8", "i16", "u16", "bool"):
         lo, hi = N.RANGE[S]
-        for _ in range(200 if tier == "quick" else 2000):
+        for _ in range(500 if tier == "quick" else 5000):
             add("conv small->fp", "conv %s %s %s" % (S, rng.choice(N.FP_TYPES), N.hx(rng.randrange(lo, hi + 1))))
     # floating sources
     for S in N.FP_TYPES:
@@ -177,10 +179,10 @@ def run(ctx, vlib):
         oi += N.run_impl(vlib, impl, explicit, jobs=1)
         om += vlib.run_driver(model, explicit, jobs=1)
     res = N.assess("C04", vlib, impl, model, cases, oi, om, evals, sws, classes,
-                   rule="Convert::To/TryTo and Detail::ConvertByPolicy: ALL values of bool/char/int8/uint8/int16/uint16 x 10 integer targets (hashed sweeps, bisected to single cases on mismatch; 8-bit sources (16-bit in thorough) also x 4 policy combinations); 32/64-bit sources at every type limit +-2, +-2^k+-{0,1,2}, around the 24/53-bit exactness thresholds and random, x 12 targets; float/double boundary + random bit patterns x 12 targets; source of another kind; text sources.  Integer ops are compared with the extracted Coq model, float ops with an exact integer/rational oracle.  non-trivial = distinct case whose expected answer is not a plain success",
+                   rule="Convert::To/TryTo and Detail::ConvertByPolicy: ALL values of bool/char/int8/uint8/int16/uint16 x 10 integer targets (hashed sweeps, bisected to single cases on mismatch; 8-bit sources (16-bit in thorough) also x 4 policy combinations); 32/64-bit sources at every type limit +-2, +-2^k+-{0,1,2}, around the 24/53-bit exactness thresholds and random, x 12 targets; float/double boundary + random bit patterns x 12 targets; source of another kind; text sources.  All ops are compared with the extracted Coq model (floats: Flocq); a disagreement is judged by the extracted specification (integers) or an exact integer/rational oracle (floats).  non-trivial = distinct case whose expected answer is not a plain success",
                    nontrivial_fn=nontrivial)
     ub = sorted(set(c for c, a in zip(cases, oi) if N.norm(a) == "UB"))
-    res["notes"] = ["float half: correspondence against an exact oracle only (no Coq model)"]
+    res["notes"] = ["float half: Flocq model (NumFloatModel.v) + proofs (T_C04_int_to_f32/f64_*, T_C04_f64_to_f32_*, T_C04_f32_to_f64 in Properties_C04.v, under the Reals axioms); disagreements judged by an exact python oracle"]
     if ub:
         res["notes"].append("%d distinct cases hit undefined behaviour in the implementation (float -> integer cast of an out-of-range value in the compare-back of Convert::Detail::To), e.g. %s" % (len(ub), "; ".join(ub[:3])))
     return res
